@@ -124,11 +124,25 @@ CHECKS['C08'] = dict(
     assumptions=['ordered-multimap model (h_listtbl.c); strcmp/strcasecmp of the C library define key equality and sort order',
                  'save/load: names are identifier-like, values are strings; raw (unencoded) mode only for values without newline and without leading/trailing blanks'])
 
+
+CHECKS['C09'] = dict(
+    title='list, queue, stack, grow buffer exact sequences', level='exploration',
+    jobs=lambda tier, seed: [Job('h_list', 'plain', args=['--cases', '5000' if tier == 'thorough' else '480'])],
+    rule='evaluation = one operation compared with an array-of-byte-strings model (result, out-size, errno class ERANGE/ENOBUFS/EINVAL/ENOENT), followed by a full comparison of the '
+         'chain (public links, both directions), size() and datasize(). Exhaustive sweep: every (n<=12, index in [-n-2,n+2], op in addat/getat/popat/removeat, size limit none/n-1/n/n+1) cell on a fresh list; '
+         'random histories of list (all operations incl. setsize, reverse, toarray, tostring, getnext), queue (FIFO), stack (LIFO) and grow buffer (concatenation). '
+         'distinct = sweep cells + distinct (container kind, element-prefix sequence) states.',
+    require=['sweep_cells', 'refused_calls_verified_effect_free', 'add_refused_full', 'add_refused_range', 'access_refused_range', 'walks_audited',
+             'flattenings_audited', 'reversals', 'push_refused_full', 'pop_on_empty', 'grow_adds'],
+    assumptions=['array model with the documented index conventions (insertion: negative i -> n+i+1, valid 0..n; access: negative i -> n+i, valid 0..n-1)',
+                 'popstr/getstr are only applied to NUL-terminated elements, popint/getint only to 8-byte elements (anything else is a caller error)'])
+
 # --------------------------------------------------------------------------- manifest texts
 NOT_APPLICABLE = {}
 DESIGN_REF = {}
 LEVEL_NOTE = {}
 TECHNIQUE = {
+    'C09': 'reference-model oracle (sequence of byte strings) on an exhaustive (n, index, op, limit) sweep + random histories',
     'C08': 'reference-model oracle (ordered multimap x 16 option combinations) + link-invariant walker after every operation',
     'C06': 'reference-model oracle (bounded map with slot accounting) on bounded-exhaustive images + random histories',
     'C07': 'image-graph walker + attach/relocate equivalence + guard zones (ASan-poisoned) after every operation',
@@ -139,6 +153,7 @@ TECHNIQUE = {
     'C04': 'reference-model floor oracle + continuation multiset audit; CPU watchdog',
 }
 LEVEL_TEXT = {
+    'C09': 'Every call on the real list/queue/stack/grow buffer is compared with a sequence model, refused calls are verified effect-free by full state comparison, and every (length, index, operation, limit) cell up to length 12 is executed.',
     'C08': 'Every result of the real list table is compared with an ordered-multimap model under all 16 option combinations, the raw chain order is compared after every operation, and save/load round trips are executed on real files.',
     'C06': 'Every result, errno and counter of the real static hash table is compared with a bounded-map model including the exact fit rule, on every operation applied to every reachable image for small capacities and on random histories driven to and past full.',
     'C07': 'An independent walker validates the slot graph after every operation; second handles on the same memory and on relocated byte copies must observe identical contents and can continue; poisoned guard zones catch any access outside the user region.',
